@@ -243,42 +243,53 @@ func (s *RedundantScope) checkAppendUnique(mkline *MkLine, info *redundantScopeV
 }
 
 func (s *RedundantScope) handleExpr(mkline *MkLine) {
+	// The operators := and != evaluate the value immediately, which
+	// also reads all variables that are referenced indirectly.
+	// The same goes for the conditions of .if, .elif and .ifdef, the items of
+	// .for loops, the paths of .include lines and the targets and sources
+	// of dependency lines, which are all evaluated when the line is parsed.
+	eager := false
 	switch {
 	case mkline.IsVarassign():
-		// The operators := and != evaluate the value immediately, which
-		// also reads all variables that are referenced indirectly.
-		eager := mkline.Op() == opAssignEval || mkline.Op() == opAssignShell
-		indirect := make(map[string]bool)
-		var read func(varname string, direct bool)
-		read = func(varname string, direct bool) {
-			if !direct && indirect[varname] {
-				return
-			}
-			indirect[varname] = true
-			info := s.get(varname)
-			info.vari.Read(mkline)
-			info.lastAction = 1
-			s.access(varname)
-			if eager {
-				for _, ref := range info.vari.Refs() {
-					read(ref, false)
-				}
+		eager = mkline.Op() == opAssignEval || mkline.Op() == opAssignShell
+
+	case mkline.IsDirective(), mkline.IsInclude(), mkline.IsSysinclude(), mkline.IsDependency():
+		if G.Pkgsrc != nil && G.Pkgsrc.IsInfra(mkline.Filename()) {
+			// In the infrastructure, only the assignments are
+			// taken into account, as there is too little context
+			// to tell which conditions apply to the package.
+			return
+		}
+		eager = true
+
+	default:
+		return
+	}
+
+	indirect := make(map[string]bool)
+	var read func(varname string, direct bool)
+	read = func(varname string, direct bool) {
+		if !direct && indirect[varname] {
+			return
+		}
+		indirect[varname] = true
+		info := s.get(varname)
+		info.vari.Read(mkline)
+		info.lastAction = 1
+		s.access(varname)
+		if eager {
+			for _, ref := range info.vari.Refs() {
+				read(ref, false)
 			}
 		}
-		mkline.ForEachUsed(func(expr *MkExpr, time EctxTime) {
-			read(expr.varname, true)
-		})
-
-	case mkline.IsDirective():
-		// TODO: Handle expr for conditions and loops.
-		break
-
-	case mkline.IsInclude(), mkline.IsSysinclude():
-		// TODO: Handle Expr for includes, which may reference variables.
-		break
-
-	case mkline.IsDependency():
-		// TODO: Handle Expr for this case.
+	}
+	mkline.ForEachUsed(func(expr *MkExpr, time EctxTime) {
+		read(expr.varname, true)
+	})
+	if mkline.IsDirective() && (mkline.Directive() == "ifdef" || mkline.Directive() == "ifndef") {
+		for _, varname := range mkline.ValueFields(mkline.Args()) {
+			read(varname, true)
+		}
 	}
 }
 
